@@ -20,6 +20,15 @@ thread_local! {
     /// replay mode: random-oracle outputs take their natural value (a hash of the concrete arguments)
     /// instead of the value the solver chose for them
     static NATURAL_RO: std::cell::Cell<bool> = std::cell::Cell::new(false);
+    /// replay mode: drivers draw their trapdoor-bearing setup (SRS) from a different seed
+    static REPLAY_SALT: std::cell::Cell<u64> = std::cell::Cell::new(0);
+}
+
+/// Salt that drivers mix into the seed of trapdoor-bearing setups. It is 0 during exploration and
+/// non-zero in the confirmation replay of a violation: a violation that depends on the particular
+/// trapdoor value (inputs only an adversary who knows the trapdoor could pick) does not survive it.
+pub fn replay_salt() -> u64 {
+    REPLAY_SALT.with(|c| c.get())
 }
 
 /// Silence panic output and remember the source file of the last panic (line numbers are not part
@@ -160,13 +169,15 @@ pub struct Limits {
     pub tl_ms: u64,
     pub max_violations: usize,
     pub xcheck_every: usize,
+    /// explore the deepest pending alternative first (finds inputs that pass long chains of checks)
+    pub deep_first: bool,
 }
 impl Limits {
     pub fn quick() -> Self {
-        Limits { max_runs: 400, wall_s: 120.0, tl_ms: 1500, max_violations: 2, xcheck_every: 6 }
+        Limits { max_runs: 400, wall_s: 120.0, tl_ms: 1500, max_violations: 2, xcheck_every: 6, deep_first: false }
     }
     pub fn thorough() -> Self {
-        Limits { max_runs: 6000, wall_s: 1500.0, tl_ms: 10000, max_violations: 3, xcheck_every: 4 }
+        Limits { max_runs: 6000, wall_s: 1500.0, tl_ms: 10000, max_violations: 3, xcheck_every: 4, deep_first: false }
     }
 }
 
@@ -201,6 +212,7 @@ pub struct Report {
     pub stopped: String,
     pub oracle_only: usize,
     pub negligible: usize,
+    pub heuristic_runs: usize,
 }
 impl Report {
     pub fn to_json(&self) -> Value {
@@ -212,7 +224,7 @@ impl Report {
             "max_path_len": self.max_path_len, "max_vars": self.max_vars, "exhaustive": self.complete,
             "frontier": self.frontier, "samples": self.samples, "xchecks": self.xchecks,
             "solver_disagreements": self.disagreements, "ro_fresh": self.ro_fresh, "ro_hits": self.ro_hits,
-            "ro_axioms": self.axioms, "unresolved_notes": self.unknown_notes, "wall_s": self.wall_s, "stopped": self.stopped, "oracle_only_models": self.oracle_only, "assumed_oracle_generic": self.negligible,
+            "ro_axioms": self.axioms, "unresolved_notes": self.unknown_notes, "wall_s": self.wall_s, "stopped": self.stopped, "oracle_only_models": self.oracle_only, "assumed_oracle_generic": self.negligible, "heuristic_runs": self.heuristic_runs,
         })
     }
 }
@@ -240,8 +252,10 @@ pub fn run_once(f: &dyn Fn() -> Verdict, input: Vec<Fr>, seed: u64) -> RunOut {
 /// having chosen oracle outputs.
 pub fn run_once_mode(f: &dyn Fn() -> Verdict, input: Vec<Fr>, seed: u64, natural_ro: bool) -> RunOut {
     NATURAL_RO.with(|c| c.set(natural_ro));
+    REPLAY_SALT.with(|c| c.set(if natural_ro { 0x5a17 } else { 0 }));
     let out = run_once_inner(f, input, seed);
     NATURAL_RO.with(|c| c.set(false));
+    REPLAY_SALT.with(|c| c.set(0));
     out
 }
 fn run_once_inner(f: &dyn Fn() -> Verdict, input: Vec<Fr>, seed: u64) -> RunOut {
@@ -466,6 +480,9 @@ fn describe(names: &[String], vals: &[Fr], max: usize) -> Value {
 
 /// Explore every feasible path of `f` (within `lim`).
 pub fn explore(f: &dyn Fn() -> Verdict, seed: u64, lim: &Limits) -> Report {
+    if lim.deep_first {
+        return explore_dfs(f, seed, lim);
+    }
     let t_start = Instant::now();
     let mut rep = Report::default();
     let mut solvers = Solvers {
@@ -485,7 +502,7 @@ pub fn explore(f: &dyn Fn() -> Verdict, seed: u64, lim: &Limits) -> Report {
     let mut tried: HashSet<u64> = HashSet::new();
     let mut unsat_count = 0usize;
     rep.complete = true;
-    while let Some((input, bound, expect)) = work.pop_front().or_else(|| work_low.pop_front()) {
+    while let Some((input, bound, expect)) = (if lim.deep_first { work.pop_back() } else { work.pop_front() }).or_else(|| work_low.pop_front()) {
         if rep.runs >= lim.max_runs || t_start.elapsed().as_secs_f64() > lim.wall_s {
             rep.complete = false;
             rep.frontier = work.len() + work_low.len() + 1;
@@ -535,7 +552,7 @@ pub fn explore(f: &dyn Fn() -> Verdict, seed: u64, lim: &Limits) -> Report {
                 if !same {
                     rep.oracle_only += 1;
                     if rep.unknown_notes.len() < 5 {
-                        rep.unknown_notes.push(format!("violation '{}' needs solver-chosen random-oracle outputs; with natural oracle outputs: {:?}", key, match &nat.verdict { Verdict::Hold => "holds".to_string(), Verdict::Discard(w) => format!("discarded ({})", w), Verdict::Violation{key,..} => format!("violation {}", key) }));
+                        rep.unknown_notes.push(format!("violation '{}' needs solver-chosen random-oracle outputs or trapdoor-dependent inputs; replay with natural oracle outputs and a fresh trapdoor: {:?}", key, match &nat.verdict { Verdict::Hold => "holds".to_string(), Verdict::Discard(w) => format!("discarded ({})", w), Verdict::Violation{key,..} => format!("violation {}", key) }));
                     }
                 } else {
                 rep.violations.push(json!({
@@ -546,6 +563,10 @@ pub fn explore(f: &dyn Fn() -> Verdict, seed: u64, lim: &Limits) -> Report {
                 }));
                 }
             }
+        }
+        if std::env::var("SYMPC_TRACE").is_ok() {
+            let kinds: String = out.path.iter().map(|b| match b.kind { Kind::Branch => if b.taken { 'B' } else { 'b' }, Kind::RoArg => if b.taken { 'R' } else { 'r' }, Kind::Pin => 'P', Kind::Assume => 'A' }).collect();
+            eprintln!("RUN {} bound={} len={} verdict={:?} {}", rep.runs, bound, out.path.len(), match &out.verdict { Verdict::Hold => "hold".to_string(), Verdict::Discard(_) => "discard".to_string(), Verdict::Violation{key,..} => key.clone() }, kinds);
         }
         rep.max_path_len = rep.max_path_len.max(out.path.len());
         rep.max_vars = rep.max_vars.max(out.assignment.len());
@@ -585,12 +606,33 @@ pub fn explore(f: &dyn Fn() -> Verdict, seed: u64, lim: &Limits) -> Report {
             let dec = decide(&mut solvers, &conds, sig[i].0, &out.assignment, &mut rep);
             rep.solver_ms += t0.elapsed().as_millis();
             rep.queries += 1;
+            if let (Ok(dir), true, Dec::Unsat(_)) = (std::env::var("SYMPC_DUMP"), i + 1 == out.path.len(), &dec) {
+                if let Some(q) = ARENA.with(|a| emit_query_norm(&a.borrow(), &conds)) {
+                    let _ = std::fs::write(format!("{}/lastunsat_run{}.smt2", dir, rep.runs), format!("(set-logic ALL)\n{}(check-sat)\n", q.text));
+                }
+            }
+            if std::env::var("SYMPC_TRACE").is_ok() && i + 3 >= out.path.len() {
+                eprintln!("   alt {} of {}: {}", i, out.path.len(), match &dec { Dec::Negligible => "negligible".to_string(), Dec::Unsat(t) => format!("unsat {}", t), Dec::Sat(_, t) => format!("sat {}", t), Dec::Unknown(w) => format!("unknown {}", w) });
+            }
             match dec {
                 Dec::Negligible => {
                     rep.negligible += 1;
                     *rep.tier.entry("assumed:oracle-generic".into()).or_insert(0) += 1;
                 }
                 Dec::Unsat(tier) => {
+                    // violation hunting: the alternative may be blocked only by recorded oracle-argument
+                    // disequalities (e.g. two forged columns that must coincide); try it without them and
+                    // run the model as an extra exploratory input (soundness is unaffected: every run is
+                    // a real execution, and this alternative stays discharged for the recorded prefix)
+                    if lim.deep_first && out.path[i].kind == Kind::Branch && i + 1 == out.path.len() {
+                        let relaxed: Vec<(Cond, bool)> = conds.iter().enumerate().filter(|(k, c)| *k == i || !(out.path[*k].kind == Kind::RoArg && !c.1)).map(|(_, c)| *c).collect();
+                        if relaxed.len() < conds.len() && tried.insert(hash_conds(&relaxed) ^ 0x9e3779b97f4a7c15) {
+                            if let Dec::Sat(ni, _) = decide(&mut solvers, &relaxed, sig[i].0, &out.assignment, &mut rep) {
+                                rep.heuristic_runs += 1;
+                                work.push_back((ni, 0, None));
+                            }
+                        }
+                    }
                     rep.unsat += 1;
                     *rep.tier.entry(format!("unsat:{}", tier)).or_insert(0) += 1;
                     unsat_count += 1;
@@ -690,4 +732,232 @@ pub fn as_rng_var(x: SF) -> Option<u32> {
 }
 pub fn rng_draws() -> usize {
     RNG_DRAWS.with(|c| c.get())
+}
+
+
+/// bookkeeping shared by both search orders for a freshly executed run; returns false if the path was seen before
+fn account_run(f: &dyn Fn() -> Verdict, seed: u64, out: &RunOut, rep: &mut Report, seen_paths: &mut HashSet<u64>, sig: &[(Cond, bool)]) -> bool {
+    if !seen_paths.insert(hash_conds(sig)) {
+        return false;
+    }
+    match &out.verdict {
+        Verdict::Discard(_) => rep.discarded += 1,
+        Verdict::Hold => rep.paths += 1,
+        Verdict::Violation { key, msg } => {
+            rep.paths += 1;
+            let nat = run_once_mode(f, out.assignment.clone(), seed, true);
+            let same = matches!(&nat.verdict, Verdict::Violation { key: k2, .. } if k2 == key);
+            let _ = run_once(f, out.assignment.clone(), seed);
+            if !same {
+                rep.oracle_only += 1;
+                if rep.unknown_notes.len() < 5 {
+                    rep.unknown_notes.push(format!("violation '{}' needs solver-chosen random-oracle outputs or trapdoor-dependent inputs; it does not reproduce with natural oracle outputs and a fresh trapdoor", key));
+                }
+            } else {
+                rep.violations.push(json!({
+                    "key": key, "msg": msg,
+                    "inputs": out.assignment.iter().map(fr_dec).collect::<Vec<_>>(),
+                    "names": out.names,
+                    "path_len": out.path.len(),
+                }));
+            }
+        }
+    }
+    rep.max_path_len = rep.max_path_len.max(out.path.len());
+    rep.max_vars = rep.max_vars.max(out.assignment.len());
+    let (pins, notes) = ARENA.with(|a| (a.borrow().pins, a.borrow().pin_notes.clone()));
+    rep.pins += pins;
+    for n in notes {
+        if rep.pin_notes.len() < 6 && !rep.pin_notes.contains(&n) {
+            rep.pin_notes.push(n);
+        }
+    }
+    let (fr, hi, _) = super::ro::stats();
+    rep.ro_fresh = rep.ro_fresh.max(fr);
+    rep.ro_hits = rep.ro_hits.max(hi);
+    if rep.samples.len() < 4 {
+        rep.samples.push(json!({
+            "inputs": describe(&out.names, &out.assignment, 12),
+            "branches": out.path.len(),
+            "outcome": match &out.verdict { Verdict::Hold => "holds".to_string(), Verdict::Discard(w) => format!("discarded: {}", w), Verdict::Violation{key,..} => format!("VIOLATION {}", key) },
+        }));
+    }
+    true
+}
+
+struct Frame {
+    input: Vec<Fr>,
+    bound: usize,
+    expect: Option<Vec<(Cond, bool)>>,
+    /// None until executed; then the remaining alternatives to try, deepest code branch first,
+    /// oracle-argument alternatives last
+    todo: Option<Vec<usize>>,
+    sig: Vec<(Cond, bool)>,
+    kinds: Vec<Kind>,
+    assignment: Vec<Fr>,
+}
+
+/// Depth-first variant: after every run only the deepest pending alternative is decided, and a
+/// satisfying model is executed at once (one query + one run per step). Used for the properties
+/// whose violations lie behind long chains of checks. The set of alternatives decided in the end is
+/// the same as in the breadth-first order when the budget suffices.
+fn explore_dfs(f: &dyn Fn() -> Verdict, seed: u64, lim: &Limits) -> Report {
+    let t_start = Instant::now();
+    let mut rep = Report::default();
+    let mut solvers = Solvers {
+        cvc5_n: Session::new(Which::Cvc5, lim.tl_ms + 500),
+        cvc5_x: Session::new(Which::Cvc5, lim.tl_ms + 500),
+        cvc5_a: Session::new(Which::Cvc5, lim.tl_ms + 500),
+        z3_x: Session::new(Which::Z3, lim.tl_ms + 500),
+        cvc5_c: Session::new(Which::Cvc5, 1000),
+        z3_check: Session::new(Which::Z3, 400),
+        tl_ms: lim.tl_ms,
+    };
+    let mut stack: Vec<Frame> = vec![Frame { input: vec![], bound: 0, expect: None, todo: None, sig: vec![], kinds: vec![], assignment: vec![] }];
+    let mut seen_paths: HashSet<u64> = HashSet::new();
+    let mut tried: HashSet<u64> = HashSet::new();
+    let mut arena_owner: usize = usize::MAX; // index in a monotone frame counter
+    let mut frame_ids: Vec<usize> = vec![0];
+    let mut next_id = 1usize;
+    let mut unsat_count = 0usize;
+    rep.complete = true;
+    loop {
+        if stack.is_empty() {
+            break;
+        }
+        if rep.runs >= lim.max_runs || t_start.elapsed().as_secs_f64() > lim.wall_s || rep.violations.len() >= lim.max_violations {
+            rep.complete = false;
+            rep.frontier = stack.iter().map(|fr| fr.todo.as_ref().map_or(1, |t| t.len())).sum();
+            rep.stopped = if rep.violations.len() >= lim.max_violations { "max_violations".into() } else if rep.runs >= lim.max_runs { "max_runs".into() } else { "wall budget".into() };
+            break;
+        }
+        let top = stack.len() - 1;
+        let my_id = frame_ids[top];
+        if stack[top].todo.is_none() {
+            let out = run_once(f, stack[top].input.clone(), seed);
+            rep.runs += 1;
+            rep.selfcheck_fail += out.selfcheck_fail;
+            arena_owner = my_id;
+            let sig: Vec<(Cond, bool)> = out.path.iter().map(|b| (b.cond, b.taken)).collect();
+            if let Some(exp) = &stack[top].expect {
+                if !(sig.len() >= exp.len() && sig[..exp.len()] == exp[..]) {
+                    rep.divergent += 1;
+                }
+            }
+            if std::env::var("SYMPC_TRACE").is_ok() {
+                eprintln!("RUN {} bound={} len={} depth={}", rep.runs, stack[top].bound, out.path.len(), stack.len());
+            }
+            if !account_run(f, seed, &out, &mut rep, &mut seen_paths, &sig) {
+                stack.pop();
+                frame_ids.pop();
+                continue;
+            }
+            let kinds: Vec<Kind> = out.path.iter().map(|b| b.kind).collect();
+            let b = stack[top].bound;
+            // order: oracle-argument alternatives first in the vector (popped last), code branches after, ascending
+            let mut todo: Vec<usize> = (b..kinds.len()).filter(|i| kinds[*i] == Kind::RoArg).collect();
+            todo.extend((b..kinds.len()).filter(|i| kinds[*i] == Kind::Branch));
+            stack[top].todo = Some(todo);
+            stack[top].sig = sig;
+            stack[top].kinds = kinds;
+            stack[top].assignment = out.assignment.clone();
+            continue;
+        }
+        let i = match stack[top].todo.as_mut().unwrap().pop() {
+            Some(i) => i,
+            None => {
+                stack.pop();
+                frame_ids.pop();
+                continue;
+            }
+        };
+        let mut conds: Vec<(Cond, bool)> = stack[top].sig[..i].to_vec();
+        conds.push((stack[top].sig[i].0, !stack[top].sig[i].1));
+        if !tried.insert(hash_conds(&conds)) {
+            continue;
+        }
+        if arena_owner != my_id {
+            // restore this frame's term arena by re-executing its input
+            let _ = run_once(f, stack[top].input.clone(), seed);
+            arena_owner = my_id;
+        }
+        let flipped = stack[top].sig[i].0;
+        let base = stack[top].assignment.clone();
+        let t0 = Instant::now();
+        let dec = decide(&mut solvers, &conds, flipped, &base, &mut rep);
+        rep.solver_ms += t0.elapsed().as_millis();
+        rep.queries += 1;
+        match dec {
+            Dec::Negligible => {
+                rep.negligible += 1;
+                *rep.tier.entry("assumed:oracle-generic".into()).or_insert(0) += 1;
+            }
+            Dec::Unsat(tier) => {
+                rep.unsat += 1;
+                *rep.tier.entry(format!("unsat:{}", tier)).or_insert(0) += 1;
+                unsat_count += 1;
+                // blocked only by oracle-argument disequalities? try without them (exploratory run)
+                if stack[top].kinds[i] == Kind::Branch && i + 1 == stack[top].sig.len() {
+                    let kinds = stack[top].kinds.clone();
+                    let relaxed: Vec<(Cond, bool)> = conds.iter().enumerate().filter(|(k, c)| *k == i || !(kinds[*k] == Kind::RoArg && !c.1)).map(|(_, c)| *c).collect();
+                    if relaxed.len() < conds.len() && tried.insert(hash_conds(&relaxed) ^ 0x9e3779b97f4a7c15) {
+                        if let Dec::Sat(ni, _) = decide(&mut solvers, &relaxed, flipped, &base, &mut rep) {
+                            rep.heuristic_runs += 1;
+                            stack.push(Frame { input: ni, bound: 0, expect: None, todo: None, sig: vec![], kinds: vec![], assignment: vec![] });
+                            frame_ids.push(next_id);
+                            next_id += 1;
+                            continue;
+                        }
+                    }
+                }
+                if lim.xcheck_every > 0 && unsat_count % lim.xcheck_every == 0 {
+                    if let Some(q) = ARENA.with(|a| emit_query(&a.borrow(), &conds, None, false, true)) {
+                        rep.xchecks += 1;
+                        let other = if tier.contains("z3") { &mut solvers.cvc5_c } else { &mut solvers.z3_check };
+                        if let Ans::Sat(vals) = other.ask(&q.text, &q.vars) {
+                            let ni = model_to_input(&q, &vals, &base);
+                            let all = ARENA.with(|a| {
+                                let a = a.borrow();
+                                ni.len() == a.var_vals.len() && conds.iter().all(|(c, p)| eval_cond(&a, *c, &ni) == *p)
+                            });
+                            if all {
+                                rep.disagreements += 1;
+                            }
+                        }
+                    }
+                }
+            }
+            Dec::Sat(ni, tier) => {
+                let ok = ARENA.with(|a| {
+                    let a = a.borrow();
+                    conds.iter().all(|(c, p)| eval_cond(&a, *c, &ni) == *p)
+                });
+                if ok {
+                    rep.sat += 1;
+                    *rep.tier.entry(format!("sat:{}", tier)).or_insert(0) += 1;
+                    stack.push(Frame { input: ni, bound: i + 1, expect: Some(conds.clone()), todo: None, sig: vec![], kinds: vec![], assignment: vec![] });
+                    frame_ids.push(next_id);
+                    next_id += 1;
+                } else {
+                    rep.unknown += 1;
+                    *rep.tier.entry("model-rejected".into()).or_insert(0) += 1;
+                }
+            }
+            Dec::Unknown(w) => {
+                rep.unknown += 1;
+                if rep.unknown_notes.len() < 5 {
+                    let s: String = w.chars().take(160).collect();
+                    rep.unknown_notes.push(format!("branch {} of {}: {}", i, stack[top].sig.len(), s));
+                }
+            }
+        }
+    }
+    if rep.unknown > 0 || rep.oracle_only > 0 {
+        rep.complete = false;
+        if rep.stopped.is_empty() {
+            rep.stopped = "unresolved alternatives".into();
+        }
+    }
+    rep.wall_s = t_start.elapsed().as_secs_f64();
+    rep
 }
